@@ -533,7 +533,10 @@ Section Nested.
     (forall c, lift (nestedM c) args = Fail e).
   Proof. intros H. repeat split; intros c; cbn [lift nested0 nested1 nestedM]; now rewrite H. Qed.
 
-  Lemma nested_error hout argc rets n lo args xRets e inner :
+  (* env2: the table in which the OUTER native is looked up.  It need not be the env its closure
+     captured (a statement with env2 = env has a self-referential premise: the closure stored in env
+     mentions env, which without functional extensionality can be established by conversion only) *)
+  Lemma nested_error (env2 : Z -> option funcT) hout argc rets n lo args xRets e inner :
     (* the inner script function fails (a script panic, or a native below it) *)
     env hin = Some inner -> Variadic inner = false -> slen (sel args) = Args inner ->
     Body inner (sel args) = Fail e ->
@@ -541,7 +544,7 @@ Section Nested.
     (exists c, n = nested0 c) \/ (exists c, n = nested1 c) \/ (exists c, n = nestedM c) ->
     slen args = argc -> 0 <= xRets ->
     call (lo ++ args) (NewFunc argc rets n) argc xRets = Fail e /\
-    (env hout = Some (NewFunc argc rets n) -> vm_func env (CFn hout) xRets args = Fail e).
+    (env2 hout = Some (NewFunc argc rets n) -> vm_func env2 (CFn hout) xRets args = Fail e).
   Proof.
     intros He HV Hs HB Hn Ha Hx.
     assert (vm_func env (CFn hin) k (sel args) = Fail e) as HI by (eapply vm_func_fail; eauto).
@@ -553,7 +556,7 @@ Section Nested.
     split.
     - now apply native_raise.
     - intros Ho. destruct (native_fields argc rets n) as (HA & _); [lia|].
-      eapply vm_func_fail; eauto; try congruence.
+      apply (vm_func_fail env2 hout (NewFunc argc rets n)); try assumption; [congruence|].
       rewrite <- (app_nil_l args). rewrite native_frame by assumption. now rewrite HL.
   Qed.
 End Nested.
